@@ -105,6 +105,36 @@ class AnyEmu:
     __hash__ = None
 
 
+CONTEXT_REGEXES = ("noesc_quote", "lb_semi", "caret_or_comma")
+
+
+def context_dependent_delimiter(fam, fixed, raw):
+    """Known finding F17: a regex delimiter whose match depends on what precedes the cursor (look-behind,
+    ^ anchor) is searched on a copy that starts at the cursor while parsing, but sees the preceding
+    bytes / the real start of the string inside the packet regexp. Confirmed from the witness: searching
+    the delimiter in place gives another match than searching the copy."""
+    import re as _re
+    from ..spec import REGEXES
+    st, mr = harness.model_parse(fam, raw, 0)
+    if st != "ok":
+        return False
+    W = fam["decls"][fam["root"]]["opts"].get("search_buffer_length")
+    for fe in mr.trace.fields:
+        f = next((x for x in fam["decls"][fam["root"]]["fields"] if x["name"] == fe["name"]), None)
+        if not f or f["t"] != "data" or f.get("mode") != "regex" or f["rx"] not in CONTEXT_REGEXES or f["name"] in fixed:
+            continue
+        pat = _re.compile(REGEXES[f["rx"]][0])
+        start = fe["start"]
+        window = raw[start:start + W] if W else raw[start:]
+        a = pat.search(window)
+        b = pat.search(raw, start, start + W if W else len(raw))
+        sa = (a.start(), a.end()) if a else None
+        sb = (b.start() - start, b.end() - start) if b else None
+        if sa != sb:
+            return True
+    return False
+
+
 def classify_false_negative(fam, fixed, u_pv):
     """Known finding F15: the size of a Data field is computed from an ==/!= comparison with a field
     that is Any in the pattern; Any answers the comparison instead of making the size unknown.
@@ -212,6 +242,8 @@ def one_source(run, bench, rng, raw, mr, corpus_base):
             else:
                 try:
                     mech = classify_false_negative(fam, set(fixed), monitors.pkt_to_pv(fam, fam["root"], u))
+                    if mech is None and context_dependent_delimiter(fam, set(fixed), r):
+                        mech = "context-dependent-regex-delimiter"
                 except Exception:
                     mech = None
                 run.violation("the regexp pre-filter rejects a string that unpacks to a packet equal to the pattern",
